@@ -73,7 +73,9 @@ def reset_globals():
     from edgegraph.structure import Vertex, singleton
 
     Vertex.NEIGHBOR_CACHING = False
-    Vertex._CACHE_STATS.clear()
+    stats = getattr(Vertex, "_CACHE_STATS", None)      # private bookkeeping: reset it if (and as long as) it exists
+    if isinstance(stats, dict):
+        stats.clear()
     singleton.clear_true_singleton()
 
 
